@@ -201,5 +201,5 @@ Example zoom_ieee_example :
 Proof.
   cbv zeta. split; [|split; [vm_compute; reflexivity|]].
   - unfold valid_zoom_chrom, U32_MAX, entry_ok. repeat split; repeat constructor; cbn; lia.
-  - eexists. split; vm_compute; reflexivity.
+  - eexists. split; [vm_compute; reflexivity|]. vm_compute. reflexivity.
 Qed.
